@@ -331,13 +331,26 @@ structure TenmatArgs where
   rdims : Option (List Int)
   cdims : Option (List Int)
   tshape : List Nat
+  /-- the data is a 1-d array (of `dshape.2` values, `dshape.1 = 1`): the constructor shapes it itself -/
+  vec : Bool := false
+
+/-- number of cells of the modes `ms` of a tensor of shape `tshape` -/
+def sideSize (tshape : List Nat) (ms : List Int) : Nat := numel (ms.map (fun d => tshape.getD d.toNat 0))
 
 /-- `tenmat(data, rdims, cdims, tshape)`: as many values as cells of the tensor; row and
-column modes together list every mode once -/
+column modes together list every mode once; a matrix has exactly the shape
+(cells of the row modes, cells of the column modes) — a 1-d array is shaped accordingly by the
+constructor, so only its size has to fit -/
 def Pre_tenmat (a : TenmatArgs) : Prop :=
-  a.dshape.1 * a.dshape.2 = numel a.tshape ∧ Pre_toMat a.tshape.length a.rdims a.cdims none
+  a.dshape.1 * a.dshape.2 = numel a.tshape ∧
+  match wrapDimsI a.tshape.length a.rdims a.cdims none with
+  | none => False
+  | some (r, c) =>
+    IsPermI (r ++ c) a.tshape.length ∧
+      (a.vec = false → a.dshape = (sideSize a.tshape r, sideSize a.tshape c))
 
-instance (a : TenmatArgs) : Decidable (Pre_tenmat a) := by unfold Pre_tenmat; infer_instance
+instance (a : TenmatArgs) : Decidable (Pre_tenmat a) := by
+  unfold Pre_tenmat; split <;> infer_instance
 
 structure SptenmatArgs where
   width : Nat
@@ -347,8 +360,6 @@ structure SptenmatArgs where
   cdims : Option (List Int)
   tshape : List Nat
 
-/-- number of rows / columns of the matricization -/
-def sideSize (tshape : List Nat) (ms : List Int) : Nat := numel (ms.map (fun d => tshape.getD d.toNat 0))
 
 /-- `sptenmat(subs, vals, rdims, cdims, tshape)`: the mode split is a permutation; every stored
 (row, column) pair lies inside the matrix; one value per pair -/
